@@ -29,7 +29,9 @@ func mapT(k, v *TSpec) *TSpec         { return &TSpec{Kind: "map", Elems: []*TSp
 func errT(t *TSpec) *TSpec            { return &TSpec{Kind: "error", Elems: []*TSpec{t}} }
 func union(ts ...*TSpec) *TSpec       { return &TSpec{Kind: "union", Elems: ts} }
 func enum(s ...string) *TSpec         { return &TSpec{Kind: "enum", Syms: s} }
-func rec1(n string, t *TSpec) *TSpec  { return &TSpec{Kind: "record", Fields: []TField{{Name: n, Type: t}}} }
+func rec1(n string, t *TSpec) *TSpec {
+	return &TSpec{Kind: "record", Fields: []TField{{Name: n, Type: t}}}
+}
 
 func one(t *TSpec, v *VSpec) rtCase { return rtCase{Mode: "value", Vals: []tv{{t, v}}} }
 
@@ -53,6 +55,9 @@ func witnesses() []witness {
 		{"{a:null(z=int64),b:{c:1(uint8)}(z={c:uint8})}", p + "same-name-two-types", one(&TSpec{Kind: "record", Fields: []TField{
 			{Name: "a", Type: named("z", Prim(idInt64))}, {Name: "b", Type: named("z", rec1("c", Prim(idUint8)))}}},
 			&VSpec{Elems: []*VSpec{{Null: true}, {Elems: []*VSpec{pv(zed.EncodeUint(1))}}}})},
+		{"{a:1(t=uint8),b:<t=int8>,c:2(t)}", p + "type-value-rebinds-name", one(&TSpec{Kind: "record", Fields: []TField{
+			{Name: "a", Type: named("t", Prim(idUint8))}, {Name: "b", Type: Prim(idType)}, {Name: "c", Type: named("t", Prim(idUint8))}}},
+			&VSpec{Elems: []*VSpec{pv(zed.EncodeUint(1)), {T: named("t", Prim(idInt8))}, pv(zed.EncodeUint(2))}})},
 		{"[1] of type x=[(int64,string)]", p + "named-partial-union-container", one(named("x", arr(union(Prim(idInt64), Prim(idString)))),
 			&VSpec{Elems: []*VSpec{{Tag: 0, Elems: []*VSpec{i1}}}})},
 		{"[1(x=int32)] of type [(int64,x=int32)]", p + "typedef-in-value-used-by-decorator", one(arr(union(Prim(idInt64), named("x", Prim(idInt32)))),
@@ -62,6 +67,13 @@ func witnesses() []witness {
 		{"error(\"a\"(=x)) of type error((int64,x=string))", p + "short-typedef-under-decorator", one(errT(union(Prim(idInt64), named("x", Prim(idString)))),
 			&VSpec{Tag: 1, Elems: []*VSpec{pv([]byte("a"))}})},
 	}
+}
+
+var jsonWitnesses = []struct{ key, text string }{
+	{"C02:json:duplicate-key", `{"a":1,"a":"x"}`},
+	{"C02:json:integer-above-int64", `9223372036854775808`},
+	{"C02:json:lone-surrogate-escape", `"\udc00"`},
+	{"C02:json:surrogate-pair-escape", `"é\ud83d\ude00"`},
 }
 
 // witnessRT replays every recorded witness; each one that still fails is reported under its
@@ -88,5 +100,16 @@ func witnessRT(c *h.Ctx) {
 			continue
 		}
 		c.Fail(kind, w.key, "witness "+w.name+": "+res.class+": "+res.detail+"; text="+clip(res.text, 200), replayObj{Check: "oracle", RT: &cs})
+	}
+	for _, w := range jsonWitnesses {
+		c.Eval("witness:" + w.text)
+		before := len(c.Res.Failures)
+		jsonText(c, w.text)
+		if len(c.Res.Failures) == before {
+			c.Note("JSON witness %s (%s) is read alike by both readers now: the recorded defect is gone", w.text, w.key)
+			c.Stat("witness:fixed")
+		} else {
+			c.Stat("witness:reproduced")
+		}
 	}
 }
